@@ -743,4 +743,240 @@ example :
     cutScheme s = none ∧ isFQM (parseModelPath s).toName = true ∧
     parseName s = { host := [108, 58, 53], ns := [110], model := [109, 46, 49], tag := [118, 50] } := by decide
 
+/-! ## 19. … with a scheme, and the full agreement statement -/
+
+
+/-- what `ParseNameBare` makes of everything before the last `/`: (host, namespace) -/
+def hostNs (P : Bytes) : Bytes × Bytes :=
+  match cutPromised cSlash P with
+  | none => ([], P)
+  | some (s2, ns) => ((match cutScheme s2 with | some (_, h) => h | none => s2), ns)
+
+theorem parseNameBare_slash_tag (P r t : Bytes) (hP : P ≠ []) (hr : r ≠ []) (hrs : ∀ c ∈ r, c ≠ cSlash)
+    (ht : t ≠ []) (hts : ∀ c ∈ t, c ≠ cSlash) (htc : ∀ c ∈ t, c ≠ cColon) :
+    parseNameBare ((P ++ cSlash :: r) ++ cColon :: t) = { host := (hostNs P).1, ns := (hostNs P).2, model := r, tag := t } := by
+  unfold parseNameBare hostNs
+  simp only [cutTag_append (P ++ cSlash :: r) t (by simp) ht hts htc, cutPromised_append P r hP hr hrs]
+  cases cutPromised cSlash P with
+  | none => rfl
+  | some v => rfl
+
+theorem parseNameBare_slash_notag (P r : Bytes) (hP : P ≠ []) (hr : r ≠ []) (hrs : ∀ c ∈ r, c ≠ cSlash)
+    (hrc : ∀ c ∈ r, c ≠ cColon) :
+    parseNameBare (P ++ cSlash :: r) = { host := (hostNs P).1, ns := (hostNs P).2, model := r, tag := [] } := by
+  unfold parseNameBare hostNs
+  simp only [cutTag_slash P r hrs hrc, cutPromised_append P r hP hr hrs]
+  cases cutPromised cSlash P with
+  | none => rfl
+  | some v => rfl
+
+theorem cutScheme_some (s b a : Bytes) (h : cutScheme s = some (b, a)) : s = b ++ 58 :: 47 :: 47 :: a := by
+  induction s generalizing b with
+  | nil => simp [cutScheme] at h
+  | cons x xs ih =>
+    simp only [cutScheme] at h
+    split at h
+    · rename_i hc
+      simp only [Option.some.injEq, Prod.mk.injEq] at h
+      obtain ⟨rfl, rfl⟩ := h
+      simp only [Bool.and_eq_true, beq_iff_eq] at hc
+      obtain ⟨rfl, h2⟩ := hc
+      have := List.take_append_drop 2 xs
+      rw [h2] at this
+      rw [← this]; rfl
+    · split at h
+      · rename_i b' a' hrec
+        simp only [Option.some.injEq, Prod.mk.injEq] at h
+        obtain ⟨rfl, rfl⟩ := h
+        rw [ih b' hrec]; rfl
+      · cases h
+
+/-- the first `://` of a string is also the first `://` of any prefix that contains it -/
+theorem cutScheme_prefix (b a h : Bytes) (hs : cutScheme (b ++ 58 :: 47 :: 47 :: a) = some (b, a)) :
+    cutScheme (b ++ 58 :: 47 :: 47 :: h) = some (b, h) := by
+  induction b with
+  | nil => simp [cutScheme]
+  | cons x b' ih =>
+    simp only [List.cons_append, cutScheme] at hs ⊢
+    have ht : (b' ++ 58 :: 47 :: 47 :: a).take 2 = (b' ++ 58 :: 47 :: 47 :: h).take 2 := by
+      cases b' with
+      | nil => rfl
+      | cons y ys => cases ys <;> rfl
+    rw [← ht]
+    split at hs
+    · simp at hs
+    · rename_i hc
+      simp only [hc, if_false, Bool.false_eq_true]
+      split at hs
+      · rename_i b2 a2 hrec
+        simp only [Option.some.injEq, Prod.mk.injEq, List.cons.injEq, true_and] at hs
+        obtain ⟨rfl, rfl⟩ := hs
+        rw [ih hrec]
+      · cases hs
+
+theorem host_of_colonSlash (b : Bytes) :
+    (match cutScheme (b ++ [58, 47]) with | some (_, h) => h | none => b ++ [58, 47]) ≠ [] ∧
+    cSlash ∈ (match cutScheme (b ++ [58, 47]) with | some (_, h) => h | none => b ++ [58, 47]) := by
+  cases hcs : cutScheme (b ++ [58, 47]) with
+  | none => exact ⟨by simp, by simp [cSlash]⟩
+  | some v =>
+    obtain ⟨x, h''⟩ := v
+    show h'' ≠ [] ∧ cSlash ∈ h''
+    have e := cutScheme_some _ _ _ hcs
+    have er := congrArg List.reverse e
+    simp only [List.reverse_append, List.reverse_cons, List.reverse_nil, List.nil_append, List.append_assoc,
+      List.cons_append] at er
+    cases hr : h''.reverse with
+    | nil =>
+      rw [hr] at er
+      simp at er
+    | cons y ys =>
+      rw [hr] at er
+      simp only [List.cons_append, List.cons.injEq] at er
+      have hy : y = 47 := er.1.symm
+      have hmem : y ∈ h'' := by
+        have : y ∈ h''.reverse := by rw [hr]; exact List.mem_cons_self
+        simpa using this
+      refine ⟨?_, ?_⟩
+      · intro hnil; rw [hnil] at hmem; cases hmem
+      · rw [hy] at hmem; exact hmem
+
+theorem isFQM_host_slash (n : Name) (h : cSlash ∈ n.host) : isFQM n = false := by
+  cases hq : isFQM n with
+  | false => rfl
+  | true => exact absurd rfl ((fqParts_of_isFQM hq).hslash cSlash h)
+
+/-- **… and with a scheme**: whenever BOTH parsers accept a string containing `://`, they read the same four parts (the string
+    then has the full form `scheme://host/ns/model[:tag]`; the shorter forms `x://m`, `x://n/m` are ModelPaths but never
+    valid Names). -/
+theorem cross_modelpath_scheme (s b a : Bytes) (hs : cutScheme s = some (b, a))
+    (h : isFQM (parseModelPath s).toName = true) (h2 : isFQM (parseName s) = true) :
+    parseName s = (parseModelPath s).toName := by
+  have hsa := cutScheme_some _ _ _ hs
+  subst hsa
+  have hjoin := joinWith_splitOn cSlash a
+  unfold parseModelPath at h ⊢
+  simp only [hs] at h ⊢
+  rcases hps : splitOn cSlash a with _ | ⟨p1, _ | ⟨p2, _ | ⟨p3, _ | ⟨p4, rest⟩⟩⟩⟩
+  · exact absurd hps (splitOn_ne_nil _ _)
+  · -- scheme://model[:tag]: ParseName promises a namespace that is missing
+    exfalso
+    rw [hps] at hjoin
+    simp only [joinWith] at hjoin
+    subst hjoin
+    simp only [hps] at h
+    have hP : cutPromised cSlash (b ++ [58, 47]) = some (b ++ [58], sMissing) := by
+      have e : b ++ [58, 47] = (b ++ [58]) ++ cSlash :: [] := by simp [cSlash]
+      rw [e]; unfold cutPromised
+      rw [splitLast_append _ (b ++ [58]) [] cSlash (by simp) (by intro x hx; cases hx)]
+      simp [orMissing, orElse]
+    have hhn : (hostNs (b ++ [58, 47])).2 = sMissing := by simp [hostNs, hP]
+    have e0 : b ++ 58 :: 47 :: 47 :: p1 = (b ++ [58, 47]) ++ cSlash :: p1 := by simp [cSlash]
+    have hbad : ∀ m t : Bytes, isFQM (merge { host := (hostNs (b ++ [58, 47])).1, ns := (hostNs (b ++ [58, 47])).2, model := m, tag := t } defaultName) = false := by
+      intro m t
+      have hns : validPartM .ns (orElse sMissing defaultName.ns) = false := by decide
+      simp only [isFQM, merge, hhn, hns]
+      simp
+    cases hsf : splitFirst (· == cColon) p1 with
+    | none =>
+      simp only [hsf, ModelPath.toName] at h
+      have p := fqParts_of_isFQM h
+      have hnc : ∀ c ∈ p1, c ≠ cColon := fun c hc => by simpa using splitFirst_none_all _ _ hsf c hc
+      rw [parseName, e0, parseNameBare_slash_notag _ p1 (by simp) p.mne p.mslash hnc, hbad] at h2
+      cases h2
+    | some v =>
+      obtain ⟨r, t, c⟩ := v
+      simp only [hsf, ModelPath.toName] at h
+      have p := fqParts_of_isFQM h
+      obtain ⟨e, hc⟩ := splitFirst_some _ _ _ _ _ hsf
+      have hcc : c = cColon := by simpa using hc
+      subst hcc
+      have e1 : (b ++ [58, 47]) ++ cSlash :: p1 = ((b ++ [58, 47]) ++ cSlash :: r) ++ cColon :: t := by rw [e]; simp
+      rw [parseName, e0, e1, parseNameBare_slash_tag _ r t (by simp) p.mne p.mslash p.tne p.tslash p.tcolon, hbad] at h2
+      cases h2
+  · -- scheme://ns/model[:tag]: what ParseName takes for the host ends in `/`
+    exfalso
+    rw [hps] at hjoin
+    simp only [joinWith] at hjoin
+    subst hjoin
+    simp only [hps] at h
+    have e0 : b ++ 58 :: 47 :: 47 :: (p1 ++ cSlash :: p2) = ((b ++ [58, 47]) ++ cSlash :: p1) ++ cSlash :: p2 := by simp [cSlash]
+    have hbad : ∀ (hn : p1 ≠ []) (hns : ∀ c ∈ p1, c ≠ cSlash) (m t : Bytes),
+        isFQM (merge { host := (hostNs ((b ++ [58, 47]) ++ cSlash :: p1)).1, ns := (hostNs ((b ++ [58, 47]) ++ cSlash :: p1)).2, model := m, tag := t } defaultName) = false := by
+      intro hn hns m t
+      have hP := cutPromised_append (b ++ [58, 47]) p1 (by simp) hn hns
+      obtain ⟨hne, hmem⟩ := host_of_colonSlash b
+      apply isFQM_host_slash
+      simp only [hostNs, hP, merge]
+      rw [orElse_ne hne]; exact hmem
+    cases hsf : splitFirst (· == cColon) p2 with
+    | none =>
+      simp only [hsf, ModelPath.toName] at h
+      have p := fqParts_of_isFQM h
+      have hnc : ∀ c ∈ p2, c ≠ cColon := fun c hc => by simpa using splitFirst_none_all _ _ hsf c hc
+      rw [parseName, e0, parseNameBare_slash_notag _ p2 (by simp) p.mne p.mslash hnc, hbad p.nne p.nslash] at h2
+      cases h2
+    | some v =>
+      obtain ⟨r, t, c⟩ := v
+      simp only [hsf, ModelPath.toName] at h
+      have p := fqParts_of_isFQM h
+      obtain ⟨e, hc⟩ := splitFirst_some _ _ _ _ _ hsf
+      have hcc : c = cColon := by simpa using hc
+      subst hcc
+      have e1 : ((b ++ [58, 47]) ++ cSlash :: p1) ++ cSlash :: p2 = (((b ++ [58, 47]) ++ cSlash :: p1) ++ cSlash :: r) ++ cColon :: t := by
+        rw [e]; simp
+      rw [parseName, e0, e1, parseNameBare_slash_tag _ r t (by simp) p.mne p.mslash p.tne p.tslash p.tcolon,
+        hbad p.nne p.nslash] at h2
+      cases h2
+  · -- scheme://host/ns/model[:tag]
+    rw [hps] at hjoin
+    simp only [joinWith] at hjoin
+    subst hjoin
+    simp only [hps] at h ⊢
+    have e0 : b ++ 58 :: 47 :: 47 :: (p1 ++ cSlash :: (p2 ++ cSlash :: p3))
+        = ((b ++ 58 :: 47 :: 47 :: p1) ++ cSlash :: p2) ++ cSlash :: p3 := by simp
+    have hhn : ∀ (h1 : p2 ≠ []) (h2' : ∀ c ∈ p2, c ≠ cSlash), hostNs ((b ++ 58 :: 47 :: 47 :: p1) ++ cSlash :: p2) = (p1, p2) := by
+      intro h1 h2'
+      simp only [hostNs, cutPromised_append (b ++ 58 :: 47 :: 47 :: p1) p2 (by simp) h1 h2', cutScheme_prefix b _ p1 hs]
+    cases hsf : splitFirst (· == cColon) p3 with
+    | none =>
+      simp only [hsf, ModelPath.toName] at h ⊢
+      have p := fqParts_of_isFQM h
+      have hnc : ∀ c ∈ p3, c ≠ cColon := fun c hc => by simpa using splitFirst_none_all _ _ hsf c hc
+      have hhne : p1.isEmpty = false := by simpa [List.isEmpty_iff] using p.hne
+      have hnsne : p2.isEmpty = false := by simpa [List.isEmpty_iff] using p.nne
+      rw [parseName, e0, parseNameBare_slash_notag _ p3 (by simp) p.mne p.mslash hnc, hhn p.nne p.nslash]
+      simp [merge, orElse, defaultName, hhne, hnsne, sLatest]
+    | some v =>
+      obtain ⟨r, t, c⟩ := v
+      simp only [hsf, ModelPath.toName] at h ⊢
+      have p := fqParts_of_isFQM h
+      obtain ⟨e, hc⟩ := splitFirst_some _ _ _ _ _ hsf
+      have hcc : c = cColon := by simpa using hc
+      subst hcc
+      have htne : t.isEmpty = false := by simpa [List.isEmpty_iff] using p.tne
+      have hhne : p1.isEmpty = false := by simpa [List.isEmpty_iff] using p.hne
+      have hnsne : p2.isEmpty = false := by simpa [List.isEmpty_iff] using p.nne
+      have e1 : ((b ++ 58 :: 47 :: 47 :: p1) ++ cSlash :: p2) ++ cSlash :: p3
+          = ((((b ++ 58 :: 47 :: 47 :: p1) ++ cSlash :: p2)) ++ cSlash :: r) ++ cColon :: t := by rw [e]; simp
+      rw [parseName, e0, e1, parseNameBare_slash_tag _ r t (by simp) p.mne p.mslash p.tne p.tslash p.tcolon, hhn p.nne p.nslash]
+      simp [merge, orElse, htne, hhne, hnsne]
+  · exfalso
+    simp only [hps] at h
+    have : splitFirst (· == cColon) ([] : Bytes) = none := rfl
+    simp only [this, ModelPath.toName] at h
+    exact (fqParts_of_isFQM h).mne rfl
+
+/-- **`ParseModelPath` and `model.ParseName` agree on every input both accept** (with or without a scheme). -/
+theorem cross_modelpath (s : Bytes) (h : isFQM (parseModelPath s).toName = true) (h2 : isFQM (parseName s) = true) :
+    parseName s = (parseModelPath s).toName := by
+  cases hs : cutScheme s with
+  | none => exact cross_modelpath_partial s hs h
+  | some v => obtain ⟨b, a⟩ := v; exact cross_modelpath_scheme s b a hs h h2
+
+example :
+    let s : Bytes := [104, 116, 116, 112, 58, 47, 47, 104, 47, 110, 47, 109, 58, 116]   -- http://h/n/m:t
+    cutScheme s ≠ none ∧ isFQM (parseModelPath s).toName = true ∧ isFQM (parseName s) = true := by decide
+
+
 end OllamaVerif.C13
